@@ -26,7 +26,9 @@ FLT_CONV = "fFeEgGaA"
 
 
 def prepare(tier):
-    return {"ex_vm": build.executor("asan", "ex_vm")}
+    # two compilers: what a too-narrow vararg looks like to printf depends on the code generator (clang at -O1 often
+    # leaves the upper half of the register intact, gcc -O0 zero-extends), so every case runs under one of both
+    return {"ex_vm": build.executor("asan", "ex_vm"), "ex_vm_plain": build.executor("plain", "ex_vm")}
 
 
 def _flags(allowed):
@@ -108,7 +110,8 @@ def _case(draw):
     prefix = draw(st.one_of(st.just(b""), gen.cbytes(12)))
     return {"pieces": pieces, "prefix": prefix.hex(), "pos": draw(st.sampled_from([0, 0, 1000, 500, 300])),
             "sink": draw(st.sampled_from(["string", "string", "file"])),
-            "drop": draw(st.sampled_from([0, 0, 0, 0, 1])) if nspec else 0}
+            "drop": draw(st.sampled_from([0, 0, 0, 0, 1])) if nspec else 0,
+            "cfg": draw(st.sampled_from(["asan", "plain"]))}
 
 
 def strategy(tier):
@@ -235,8 +238,8 @@ def run_case(ctx, case):
         P.add("del %0", lambda o: None)
     else:
         P.add("fprint %d %s %s" % (pos, fmt.hex(), " ".join(use_args)), grab_res)
-    fail, obs = P.run(ctx.executor("ex_vm"))
-    ev = ["sink=" + case["sink"], "nspec=%d" % min(nspec, 4)]
+    fail, obs = P.run(ctx.executor("ex_vm_plain" if case.get("cfg") == "plain" else "ex_vm"))
+    ev = ["sink=" + case["sink"], "nspec=%d" % min(nspec, 4), "cfg=" + case.get("cfg", "asan")]
     for p in pieces:
         if p[0] == "spec":
             ev.append("conv=" + p[5])
